@@ -1,9 +1,321 @@
+import RsMatterVerif.Model.Counters
 import Driver.Util
-/-! Driver for C12: not built yet. -/
-namespace Driver.C12
+/-! Driver for C12: replays crash/restart histories of the three durable counters on
+`Model/Counters` (correspondence) and evaluates the property's specification on the
+*implementation's* outputs (oracle):
 
-def run : IO UInt32 := do
-  IO.eprintln "C12: driver not built yet"
-  return 2
+* no value reaches the wire twice in the lifetime of the storage (multiset of used values);
+* at the moment a value is used, the boundary held in storage covers it (is ahead of it in the
+  cyclic order of the counter range; for the Check-In counter `value ≤ boundary`, because a restart
+  resumes with `boundary + 1`), for the Check-In counter only while the application has obeyed the
+  interface (store when told, one `advance` per batch);
+* a restart resumes past every used value.
+
+The oracle state is built only from the case header (start boundary) and the implementation's
+outputs (`store`d boundaries, used values); it does not look at the model. -/
+namespace Driver.C12
+open Counters
+
+inductive Kind | g | e | k | i | none
+deriving DecidableEq
+
+structure St where
+  kind : Kind := .none
+  gs : GSys := GSys.boot Option.none
+  es : ESys := ESys.boot Option.none
+  cs : CSys := CSys.boot Option.none 0 1
+  -- oracle state (implementation outputs only)
+  odur : Option Nat := Option.none
+  oused : List Nat := []
+  /-- event numbers used, as disjoint runs -/
+  oruns : List (Nat × Nat) := []
+  opending : Bool := true
+  opeeked : Bool := false
+  owell : Bool := true
+  /-- positions consumed so far (upper bound), to stay within one cycle of the range -/
+  ospent : Nat := 0
+  oepoch : Nat := 1
+  /-- the oracle applies (inside the range the property can speak about) -/
+  oon : Bool := true
+
+def optS (o : Option Nat) : String := match o with | some b => toString b | Option.none => "-"
+
+def parseD0 (s : String) : Option (Option Nat) :=
+  if s = "none" then some Option.none else s.toNat?.map some
+
+/-- group counter values live in `1..mask`, a cycle of `mask` values -/
+def gAhead (v d : Nat) : Bool := v ≥ 1 && d ≥ 1 && ahead mask (v - 1) (d - 1)
+
+/-- 2^64 minus a margin: event numbers beyond it are next to the wrap of the u64, where the
+property (stated for one cycle of the range) says nothing -/
+def eTop : Nat := U64 - 1048576
+
+def verdict (ora : Option String) (model impl : String) : String :=
+  match ora with
+  | some why => s!"ORA {why}"
+  | Option.none => if model = impl then "ok" else s!"DIS {model}"
+
+/-! ### g -/
+
+def stepG (st : St) (ws : List String) (out : String) : St × String :=
+  let o := words out
+  match ws with
+  | ["reserve", rs] =>
+    match rs.toNat? with
+    | Option.none => (st, "BAD rand")
+    | some rand =>
+      match st.gs.inflight with
+      | some _ => (st, verdict Option.none "busy" out)
+      | Option.none =>
+        let r := st.gs.vol.reserve rand
+        let gs' := gStep st.gs (.reserve rand)
+        let m := s!"{r.2.1} {optS r.2.2} {r.1.live} {r.1.boundary}"
+        ({ st with gs := gs' }, verdict Option.none m out)
+  | ["store"] =>
+    let gs' := gStep st.gs .store
+    let m := match st.gs.inflight with
+      | some (_, some b) => toString b
+      | _ => "-"
+    -- oracle: the implementation's store becomes the durable boundary
+    let odur := match out.toNat? with | some b => some b | Option.none => st.odur
+    ({ st with gs := gs', odur := odur }, verdict Option.none m out)
+  | ["stash"] =>
+    let gs' := gStep st.gs .stash
+    let m := match st.gs.inflight with
+      | some (v, Option.none) => toString v
+      | _ => "-"
+    ({ st with gs := gs' }, verdict Option.none m out)
+  | ["use", is] =>
+    match is.toNat? with
+    | Option.none => (st, "BAD idx")
+    | some i =>
+      let gs' := gStep st.gs (.use i)
+      let m := match st.gs.ready[i]? with | some v => toString v | Option.none => "-"
+      match out.toNat? with
+      | Option.none => ({ st with gs := gs' }, verdict Option.none m out)
+      | some v =>
+        let ora : Option String :=
+          if st.oused.contains v then some s!"value {v} reached the wire twice"
+          else match st.odur with
+            | Option.none => some s!"value {v} used while no boundary is stored"
+            | some d => if gAhead v d then Option.none else some s!"value {v} used while the stored boundary {d} does not cover it"
+        ({ st with gs := gs', oused := v :: st.oused }, verdict ora m out)
+  | ["peek", rs] =>
+    match rs.toNat? with
+    | Option.none => (st, "BAD rand")
+    | some rand =>
+      let gs' := gStep st.gs (.peek rand)
+      let m := s!"{gs'.vol.live} {gs'.vol.live} {gs'.vol.boundary}"
+      ({ st with gs := gs' }, verdict Option.none m out)
+  | ["crash"] =>
+    let gs' := gStep st.gs .crash
+    let m := s!"{gs'.vol.live} {gs'.vol.boundary}"
+    let ora : Option String :=
+      match o with
+      | [ls, _] =>
+        match ls.toNat? with
+        | some l =>
+          match st.oused.find? (fun u => !gAhead u l) with
+          | some u => some s!"restart resumes at {l}, not past the used value {u}"
+          | Option.none => Option.none
+        | Option.none => Option.none
+      | _ => Option.none
+    ({ st with gs := gs' }, verdict ora m out)
+  | _ => (st, "BAD op")
+
+/-! ### e -/
+
+/-- model tokens of one push: (store token?) and the number -/
+def ePushModel (s : ESys) : ESys × Option Nat × Nat :=
+  let r := s.vol.nextNumber
+  (eStep s .push, r.2.1, r.2.2)
+
+/-- run `k` pushes on the model, producing the run-length encoded token list (reversed) -/
+def ePushN : Nat → ESys → Option (Nat × Nat) → List String → ESys × List String
+  | 0, s, run, acc =>
+    (s, match run with | some (a, b) => s!"r{a}-{b}" :: acc | Option.none => acc)
+  | k + 1, s, run, acc =>
+    let (s', st, n) := ePushModel s
+    let (run, acc) := match st with
+      | some v =>
+        let acc := match run with | some (a, b) => s!"r{a}-{b}" :: acc | Option.none => acc
+        (Option.none, s!"s{v}" :: acc)
+      | Option.none => (run, acc)
+    let (run, acc) := match run with
+      | some (a, b) => if (b + 1) % U64 = n then (some (a, n), acc) else (some (n, n), s!"r{a}-{b}" :: acc)
+      | Option.none => (some (n, n), acc)
+    ePushN k s' run acc
+
+def parseRun (t : String) : Option (Nat × Nat) :=
+  match (t.drop 1).toString.splitOn "-" with
+  | [a, b] => match a.toNat?, b.toNat? with
+    | some x, some y => some (x, y)
+    | _, _ => Option.none
+  | _ => Option.none
+
+/-- oracle over the implementation's tokens of a push -/
+def eOracle (st : St) : List String → St × Option String
+  | [] => (st, Option.none)
+  | t :: ts =>
+    if t.startsWith "s" then
+      match (t.drop 1).toString.toNat? with
+      | some v => eOracle { st with odur := some v, oon := st.oon && v < eTop } ts
+      | Option.none => (st, some s!"unreadable store token {t}")
+    else if t.startsWith "r" then
+      match parseRun t with
+      | some (a, b) =>
+        let st1 := { st with oruns := (a, b) :: st.oruns, oon := st.oon && b < eTop && a ≤ b }
+        if !st1.oon then eOracle st1 ts else
+        match st.oruns.find? (fun (x, y) => !(b < x || y < a)) with
+        | some (x, y) => (st1, some s!"event numbers {a}-{b} overlap the earlier {x}-{y}")
+        | Option.none =>
+          match st.odur with
+          | Option.none => (st1, some s!"event numbers {a}-{b} handed out while no epoch is stored")
+          | some d =>
+            if b < d then eOracle st1 ts
+            else (st1, some s!"event numbers {a}-{b} handed out while the stored epoch {d} does not cover them")
+      | Option.none => (st, some s!"unreadable run token {t}")
+    else eOracle st ts
+
+def eResumeOracle (st : St) (next : Nat) : Option String :=
+  if !st.oon || next ≥ eTop then Option.none else
+  match st.oruns.find? (fun (_, y) => !(y < next)) with
+  | some (x, y) => some s!"restart resumes at {next}, not past the used numbers {x}-{y}"
+  | Option.none => Option.none
+
+def stepE (st : St) (ws : List String) (out : String) : St × String :=
+  let o := words out
+  match ws with
+  | ["push", ks] =>
+    match ks.toNat? with
+    | Option.none => (st, "BAD count")
+    | some k =>
+      let k := min k 200000
+      let (es', toks) := ePushN k st.es Option.none []
+      let m := if toks.isEmpty then "-" else " ".intercalate toks.reverse
+      let (st1, ora) := eOracle st o
+      ({ st1 with es := es' }, verdict ora m out)
+  | ["pushcrash"] =>
+    let r := st.es.vol.nextNumber
+    let es' := match r.2.1 with
+      | some _ => eStep st.es .pushCrash
+      | Option.none => eStep (eStep st.es .push) .crash
+    let m := match r.2.1 with
+      | some v => s!"s{v} died {es'.vol.next}"
+      | Option.none => s!"r{r.2.2}-{r.2.2} done {es'.vol.next}"
+    let (st1, ora) := eOracle st o
+    let ora := match ora with
+      | some w => some w
+      | Option.none => match o.getLast?.bind String.toNat? with
+        | some nx => eResumeOracle st1 nx
+        | Option.none => Option.none
+    ({ st1 with es := es' }, verdict ora m out)
+  | ["crash"] =>
+    let es' := eStep st.es .crash
+    let m := toString es'.vol.next
+    let ora := match out.toNat? with | some nx => eResumeOracle st nx | Option.none => Option.none
+    ({ st with es := es' }, verdict ora m out)
+  | _ => (st, "BAD op")
+
+/-! ### k / i -/
+
+/-- forward distance `v → d` within the u32 cycle is at most half the range (`v ≤ d` cyclically) -/
+def cCovers (v d : Nat) : Bool := fwd U32 v d ≤ U32 / 2
+
+def cBudgetOk (st : St) : Bool := st.ospent + 2 * st.oepoch + 2 < U32
+
+def stepC (st : St) (icd : Bool) (ws : List String) (out : String) : St × String :=
+  match ws with
+  | ["boot", is] =>
+    match is.toNat? with
+    | Option.none => (st, "BAD init")
+    | some i =>
+      let cs' := cStep st.cs (.boot i)
+      let m := if icd then toString cs'.ctr.next else s!"{cs'.ctr.next} {cs'.ctr.persistValue}"
+      let st1 := { st with cs := cs', opending := true, opeeked := false, ospent := st.ospent + st.oepoch }
+      let ora : Option String :=
+        match (words out).head?.bind String.toNat? with
+        | some nx =>
+          if st1.oon && st1.owell && cBudgetOk st1 && st1.oused.contains nx then
+            some s!"restart resumes with {nx}, a value that already reached the wire"
+          else Option.none
+        | Option.none => Option.none
+      (st1, verdict ora m out)
+  | ["persist"] =>
+    let cs' := cStep st.cs .persist
+    let m := toString st.cs.ctr.persistValue
+    let odur := match out.toNat? with | some b => some b | Option.none => st.odur
+    ({ st with cs := cs', odur := odur, opending := false }, verdict Option.none m out)
+  | ["use"] =>
+    let cs' := cStep st.cs .use
+    let m := toString st.cs.ctr.next
+    let well := st.owell && !st.opending && !st.opeeked
+    match out.toNat? with
+    | Option.none => ({ st with cs := cs', owell := well, opeeked := true }, verdict Option.none m out)
+    | some v =>
+      let ora : Option String :=
+        if !(st.oon && well && cBudgetOk st) then Option.none
+        else if st.oused.contains v then some s!"value {v} reached the wire twice"
+        else match st.odur with
+          | Option.none => some s!"value {v} used while no boundary is stored"
+          | some d => if cCovers v d then Option.none else some s!"value {v} used while the stored boundary {d} does not cover it"
+      ({ st with cs := cs', owell := well, opeeked := true, oused := v :: st.oused }, verdict ora m out)
+  | ["adv"] =>
+    let r := st.cs.ctr.advance
+    let cs' := cStep st.cs .advance
+    let told := out.toNat?.isSome
+    ({ st with cs := cs', opeeked := false, opending := st.opending || told, ospent := st.ospent + 1 },
+      verdict Option.none (optS r.2) out)
+  | ["advst"] =>
+    let r := st.cs.ctr.advance
+    let cs' := cStep st.cs .advanceStore
+    let (odur, pend) := match out.toNat? with
+      | some b => (some b, false)
+      | Option.none => (st.odur, st.opending)
+    ({ st with cs := cs', opeeked := false, odur := odur, opending := pend, ospent := st.ospent + 1 },
+      verdict Option.none (optS r.2) out)
+  | ["jump", ds] =>
+    match ds.toNat? with
+    | Option.none => (st, "BAD delta")
+    | some d =>
+      let r := st.cs.ctr.advanceBy d
+      let cs' := cStep st.cs (.jump d)
+      let m := if icd then (if r.2.isSome then "y" else "-") else optS r.2
+      let told := out ≠ "-"
+      ({ st with cs := cs', opending := st.opending || told, ospent := st.ospent + d }, verdict Option.none m out)
+  | _ => (st, "BAD op")
+
+def step (st : St) (line : String) : St × String :=
+  let (op, out) := splitArrow line
+  match words op with
+  | "case" :: _ :: k :: rest =>
+    if k = "g" ∨ k = "G" then
+      match rest.head?.bind parseD0 with
+      | some d0 => ({ kind := .g, gs := GSys.boot d0, odur := d0 }, "case")
+      | Option.none => ({}, "BAD d0")
+    else if k = "e" then
+      match rest.head?.bind parseD0 with
+      | some d0 => ({ kind := .e, es := ESys.boot d0, odur := d0,
+                      oon := match d0 with | some d => d < eTop | Option.none => true }, "case")
+      | Option.none => ({}, "BAD d0")
+    else if k = "k" ∨ k = "i" then
+      match rest with
+      | [ds, es, is] =>
+        match parseD0 ds, es.toNat?, is.toNat? with
+        | some d0, some ep, some ini =>
+          ({ kind := if k = "k" then .k else .i, cs := CSys.boot d0 ini ep, odur := d0, oepoch := ep,
+             ospent := ep, oon := ep ≤ 16777216 }, "case")
+        | _, _, _ => ({}, "BAD header")
+      | _ => ({}, "BAD header")
+    else ({}, "BAD kind")
+  | ws =>
+    match st.kind with
+    | .g => stepG st ws out
+    | .e => stepE st ws out
+    | .k => stepC st false ws out
+    | .i => stepC st true ws out
+    | .none => (st, "BAD no case")
+
+def run : IO UInt32 := Driver.runLoop ({} : St) step
 
 end Driver.C12
